@@ -86,7 +86,7 @@ func entryMapUpdates(f *ssa.Function) []mapUpd {
 				out = append(out, mapUpd{in: x, mapV: x.Map, fa: fa, key: x.Key, field: n})
 			}
 		case *ssa.Call:
-			if b, ok := x.Call.Value.(*ssa.Builtin); ok && b.Name() == "delete" && len(x.Call.Args) == 2 {
+			if b, ok := x.Call.Value.(*ssa.Builtin); ok && nm(b) == "delete" && len(x.Call.Args) == 2 {
 				if fa, n, ok := mapOf(x.Call.Args[0]); ok {
 					out = append(out, mapUpd{in: x, mapV: x.Call.Args[0], fa: fa, key: x.Call.Args[1], del: true, field: n})
 				}
